@@ -778,8 +778,15 @@ class NpyArray:
             raise ValueError('The array has been closed.')
 
         # Reset length
+        shrinking = length < len(self)
         self.shape = (length, ) + self.shape[1:]
         self._prepare_header_data()
+
+        if shrinking:
+            # The header in the file must never declare more data than the file holds,
+            # so write the shorter header before cutting the file.
+            self._write_header_data()
+            self.fs.flush()
 
         self.fs.seek(self.header_length + self.size * self.itemsize)
         self.fs.truncate()
